@@ -114,12 +114,33 @@ func (x c27TP) String() string { return fmt.Sprintf("t%d/%d", x.T, x.P) }
 //	closeAfter   read and process the request, then drop the connection without replying
 //	garbage      process the request, reply with bytes that do not decode
 //	omit         process the request, reply with a well-formed response without any partition
+//	omitSome     process the request, reply with a well-formed response that answers success for
+//	             the partitions it mentions but leaves out the partitions in Omit (a non-empty
+//	             proper subset of the partitions of this request; a topic whose partitions are all
+//	             left out is left out as well)
 type c27Beh struct {
 	Kind string   `json:"kind"`
 	NL   []string `json:"nl,omitempty"`
+	Omit []string `json:"omit,omitempty"`
+}
+
+// omits: the backend's reply to this request has no entry for tp.
+func (b c27Beh) omits(tp c27TP) bool {
+	if b.Kind == "omit" {
+		return true
+	}
+	for _, s := range b.Omit {
+		if s == tp.String() {
+			return true
+		}
+	}
+	return false
 }
 
 func (b c27Beh) String() string {
+	if len(b.Omit) > 0 {
+		return b.Kind + "(" + strings.Join(b.Omit, ",") + ")"
+	}
 	if len(b.NL) > 0 {
 		return b.Kind + "(" + strings.Join(b.NL, ",") + ")"
 	}
@@ -466,6 +487,24 @@ func (w *c27World) process(cfg c27Config, ar *c27Arrival, header *protocol.Reque
 			resp.Topics = nil
 			answer = map[c27TP]int16{}
 		}
+		if ar.Beh.Kind == "omitSome" {
+			var kept []kmsg.ProduceResponseTopic
+			for _, rt := range resp.Topics {
+				ti := topicIndexByName(rt.Topic)
+				var ps []kmsg.ProduceResponseTopicPartition
+				for _, rp := range rt.Partitions {
+					if tp := (c27TP{ti, rp.Partition}); ar.Beh.omits(tp) {
+						delete(answer, tp)
+					} else {
+						ps = append(ps, rp)
+					}
+				}
+				if rt.Partitions = ps; len(ps) > 0 {
+					kept = append(kept, rt)
+				}
+			}
+			resp.Topics = kept
+		}
 		out = resp.AppendTo(c27RespHeader(header.CorrelationID, resp.IsFlexible()))
 	case *kmsg.FetchRequest:
 		resp := kmsg.NewPtrFetchResponse()
@@ -499,6 +538,29 @@ func (w *c27World) process(cfg c27Config, ar *c27Arrival, header *protocol.Reque
 		if ar.Beh.Kind == "omit" {
 			resp.Topics = nil
 			answer = map[c27TP]int16{}
+		}
+		if ar.Beh.Kind == "omitSome" {
+			var kept []kmsg.FetchResponseTopic
+			for _, rt := range resp.Topics {
+				ti := -1
+				if header.APIVersion >= 13 {
+					ti = topicIndexByID(rt.TopicID)
+				} else {
+					ti = topicIndexByName(rt.Topic)
+				}
+				var ps []kmsg.FetchResponseTopicPartition
+				for _, rp := range rt.Partitions {
+					if tp := (c27TP{ti, rp.Partition}); ar.Beh.omits(tp) {
+						delete(answer, tp)
+					} else {
+						ps = append(ps, rp)
+					}
+				}
+				if rt.Partitions = ps; len(ps) > 0 {
+					kept = append(kept, rt)
+				}
+			}
+			resp.Topics = kept
 		}
 		out = resp.AppendTo(c27RespHeader(header.CorrelationID, resp.IsFlexible()))
 	default:
@@ -833,7 +895,7 @@ func c27BehKey(kind string) string {
 		return "close-after-read"
 	case "garbage":
 		return "garbage-reply"
-	case "omit":
+	case "omit", "omitSome":
 		return "incomplete-reply"
 	case "okClose":
 		return "success"
@@ -863,6 +925,9 @@ func c27Check(cfg c27Config, o c27Outcome) []c27Viol {
 			key := "missing-partition-entry"
 			if n := len(rs); n > 0 && rs[n-1].Beh.Kind == "omit" {
 				key = "missing-entry-backend-reply-omitted-partition"
+			} else if n > 0 && rs[n-1].Beh.Kind == "omitSome" && rs[n-1].Beh.omits(tp) {
+				// the backend answered other partitions of the same sub-request but not this one
+				key = "missing-entry-backend-reply-omitted-some-partitions"
 			}
 			vs = append(vs, c27Viol{key, fmt.Sprintf("reply has no entry for %s", tp)})
 		} else if len(codes) > 1 {
@@ -945,6 +1010,23 @@ func c27Options(parts []c27TP, thorough bool) []c27Beh {
 	opts = append(opts, c27Beh{Kind: "err"}, c27Beh{Kind: "closeBefore"}, c27Beh{Kind: "closeAfter"}, c27Beh{Kind: "garbage"})
 	if c27IncludeOmit {
 		opts = append(opts, c27Beh{Kind: "omit"})
+		// a decodable reply that leaves out a non-empty PROPER subset of the partitions of this
+		// request (every such subset, smallest first) and answers success for the others
+		if n <= 4 {
+			for size := 1; size < n; size++ {
+				for mask := 1; mask < 1<<n; mask++ {
+					var s []string
+					for i := 0; i < n; i++ {
+						if mask&(1<<i) != 0 {
+							s = append(s, parts[i].String())
+						}
+					}
+					if len(s) == size {
+						opts = append(opts, c27Beh{Kind: "omitSome", Omit: s})
+					}
+				}
+			}
+		}
 	}
 	return opts
 }
@@ -1120,11 +1202,11 @@ func c27ExploreScripts(maxFaults int, deadline time.Time, opts func(a *c27Arriva
 func TestVerifC27(t *testing.T) {
 	rep := vh.New(t, "C27")
 	defer rep.Finish()
-	rep.Rule = "case = request kind (produce v9 acks=1, produce v7 acks=-1, fetch by name v11, fetch by topic id v13 resolvable / unresolvable) x shape (1-2 topics x 1-2 partitions) x routing table entry per partition (unknown | owner A | owner B; the all-unknown table also with a proxy that has no router at all) x initial round-robin phase x behaviour of each backend on each request it receives (ok | NOT_LEADER for every non-empty subset of the partitions in that request | other error code | close before reading | close after reading | undecodable reply | well-formed reply without partitions), all scripts with <= F non-ok behaviours by depth-first search over the requests actually received; run on the real proxy struct against 2 loopback TCP backends. distinct = configuration + per-backend request log + reply codes; non-trivial = >=1 non-ok behaviour was consumed. SESSIONS: in addition every sequence of 2 (thorough also 3) requests (produce v9 acks=1 | fetch v11, each naming a non-empty subset of the partitions of a 1 topic x 2 partition world) sent one after the other on ONE client connection through the real proxy.handleConnection (one connPool: later requests reuse the backend connections of earlier ones) x routing table x round-robin phase x all scripts with <= F non-ok behaviours over the slots consumed during the whole session, behaviours as above plus 'answer ok, then close the now pooled connection'; every request of the session is judged by the same oracle over the backend arrivals that happened while it was in flight (produce record bytes name their request)."
+	rep.Rule = "case = request kind (produce v9 acks=1, produce v7 acks=-1, fetch by name v11, fetch by topic id v13 resolvable / unresolvable) x shape (1-2 topics x 1-2 partitions) x routing table entry per partition (unknown | owner A | owner B; the all-unknown table also with a proxy that has no router at all) x initial round-robin phase x behaviour of each backend on each request it receives (ok | NOT_LEADER for every non-empty subset of the partitions in that request | other error code | close before reading | close after reading | undecodable reply | well-formed reply without partitions | well-formed reply that answers ok but leaves out a non-empty proper subset S of the partitions of that request, every S), all scripts with <= F non-ok behaviours by depth-first search over the requests actually received; run on the real proxy struct against 2 loopback TCP backends. distinct = configuration + per-backend request log + reply codes; non-trivial = >=1 non-ok behaviour was consumed. SESSIONS: in addition every sequence of 2 (thorough also 3) requests (produce v9 acks=1 | fetch v11, each naming a non-empty subset of the partitions of a 1 topic x 2 partition world) sent one after the other on ONE client connection through the real proxy.handleConnection (one connPool: later requests reuse the backend connections of earlier ones) x routing table x round-robin phase x all scripts with <= F non-ok behaviours over the slots consumed during the whole session, behaviours as above plus 'answer ok, then close the now pooled connection'; every request of the session is judged by the same oracle over the backend arrivals that happened while it was in flight (produce record bytes name their request)."
 	rep.Assumptions = []string{
 		"a backend that closes before reading the request body has not processed (appended) it; one that read the body has",
 		"the routing table is a real metadata.PartitionRouter loaded from a fake etcd KV whose watch never fires: it only changes through the proxy's own Invalidate",
-		"a 'malformed reply' is either undecodable bytes or a well-formed response that omits the requested partitions",
+		"a 'malformed reply' is either undecodable bytes or a well-formed response that omits all or some of the requested partitions (a topic whose partitions are all omitted is omitted too)",
 		"acks=0 produce (no reply at all) is outside the statement",
 		"sessions: the client sends the next request only after it has read the reply to the previous one (no pipelining), so every backend arrival belongs to exactly one client request; the client side of the session is an in-memory net.Pipe, the backend side loopback TCP",
 		"the fan-out iterates a Go map: when an unknown-owner group coexists with owned groups, which backend the round-robin group lands on depends on map iteration order, which cannot be controlled; every script is run under the order that occurred (the oracle does not depend on it)",
@@ -1284,7 +1366,7 @@ func TestVerifC27(t *testing.T) {
 					}
 					continue
 				}
-				var runs, faulty int64
+				var runs, faulty, partial int64
 				sigs := map[string]bool{}
 				capped := c27Explore(k, cfg, faults(cfg), thorough, deadline, func(c c27Case, o c27Outcome) {
 					runs++
@@ -1294,6 +1376,12 @@ func TestVerifC27(t *testing.T) {
 						sigs[sig] = true
 					} else if !sigs[sig] {
 						sigs[sig] = false
+					}
+					for _, a := range o.Arrivals {
+						if a.Beh.Kind == "omitSome" {
+							partial++
+							break
+						}
 					}
 					if len(o.Anomaly) > 0 {
 						anomalyOnce.Do(func() {
@@ -1330,6 +1418,7 @@ func TestVerifC27(t *testing.T) {
 				})
 				rep.Eval(runs)
 				rep.Count("runs_with_faults", faulty)
+				rep.Count("runs_with_partially_answered_sub_request", partial)
 				rep.Count(fmt.Sprintf("runs_shape_%dx%d", cfg.Topics, cfg.Parts), runs)
 				rep.Count(fmt.Sprintf("configs_shape_%dx%d", cfg.Topics, cfg.Parts), 1)
 				for s, nt := range sigs {
